@@ -1,7 +1,7 @@
 """Input families and the per-input execution shared by C02, C06 and C09."""
 from __future__ import annotations
 
-from .. import decomp, esast as A, gen_prog as G, gen_ssb as GS, impl, lts
+from .. import decomp, esast as A, gen_forms, gen_prog as G, gen_ssb as GS, impl, lts
 
 SSB_KINDS_QUICK = ("op", "br", "jump", "ret", "end", "call", "sw", "case")
 SSB_KINDS_SMALL = ("op", "br", "jump", "end")
@@ -20,6 +20,8 @@ def make_cases_for(tier, seed):
         if not quick:
             yield from (((("A",) + cid), p) for cid, p in
                         G.programs(G.TINY, 4, 3, seed, ("none",), min_n=4, compatible_cases=True))
+        yield from (((("A",) + cid), p) for cid, p in G.chain_programs(seed, compatible_cases=True, big=not quick))
+        yield from (((("A",) + cid), p) for cid, p in gen_forms.form_programs())
         # (B) other layouts of flow graphs: all well-formed routine sets
         for iv, shape in enumerate(GS.shapes(SSB_KINDS_QUICK, 3 if quick else 4, 2, wellformed=True)):
             yield ("B", iv % 5 if iv % 11 else 99, shape), shape
@@ -33,7 +35,8 @@ def make_cases_for(tier, seed):
 def rule_text(tier):
     quick = tier == "quick"
     return ("inputs: (A) compile(p) for every p of G-prog (FULL alphabet N<=2 x second-routine variants, "
-            + ("REDUCED N=3" if quick else "FULL N=3, TINY N=4") + ") and (B) every well-formed G-ssb routine set with <= "
+            + ("REDUCED N=3" if quick else "FULL N=3, TINY N=4") + "; all if/elseif/else chains with 2-3 branches whose blocks are "
+            "empty / plain / leave the routine / jump behind the chain, or-groups of 1-3 conditions; G-forms) and (B) every well-formed G-ssb routine set with <= "
             + ("3" if quick else "4") + " ops in <= 2 routines over {op, branch, jump, return, end, call, switch, case} (every jump "
             "target, every split, unreachable ops, cross-routine jumps, routines starting with a Jump), single routines with "
             + ("4" if quick else "4-5") + " ops over {op, branch, jump, end}, and sets with context ops / hold")
